@@ -132,6 +132,11 @@ package region
 //@   loop 1 invariant[C11] len(seen) == len(m.calls)
 //@   loop 1 invariant[C11] forall(k, 0 <= k && k < i, rarOK(m, rars[k]))
 //@   loop 2 invariant[C11] len(seen) == len(m.calls)
+// a whole-region exception answers every call bound to that region, not just the first (C12, C02): otherwise a valid
+// response is rejected as "no result for index N" and the whole multi - the acknowledged calls of its other regions
+// included - is reported retryable and executed again
+//@   loop 2 invariant[C12,C02] forall(k, 0 <= k && k < j && m.calls[k] != nil && asiface(ghostat("callregion", m.calls[k]), "hrpc.RegionInfo") == m.regions[i], seen[k])
+//@   loop 2 exit-assert[C12,C02] forall(k, 0 <= k && k < len(m.calls) && m.calls[k] != nil && asiface(ghostat("callregion", m.calls[k]), "hrpc.RegionInfo") == m.regions[i], seen[k])
 //@   loop 3 invariant[C11] len(seen) == len(m.calls)
 //@   loop 3 invariant[C11] forall(k, 0 <= k && k < idx3, roeOK(m, rar.GetResultOrException()[k]))
 //@   loop 4 invariant[C11] len(seen) == len(m.calls)
@@ -194,7 +199,9 @@ package region
 //@   panics never[C11]
 //@   ensures[C11] r0 != nil
 //@   ensures[C04] retryLaterClass(class) ==> typeis(r0, "region.RetryableError")
-//@   ensures[C04] relocateClass(class) ==> typeis(r0, "region.NotServingRegionError")
+// (C01: "region moved / not serving" is the class that sends the client back to hbase:meta - classified as "retry later"
+// the request would keep going to the server the region has left)
+//@   ensures[C04,C01] relocateClass(class) ==> typeis(r0, "region.NotServingRegionError")
 //@   ensures[C04] serverDeadClass(class) ==> typeis(r0, "region.ServerError")
 // an IOException is the "region is gone from here" class exactly when its stack trace mentions the closed write-ahead log -
 // anywhere in the trace (a real trace begins with the class name, not with the message)
@@ -419,6 +426,7 @@ package region
 // exactly one count per completed send, none before the bytes have been written (C18)
 //@   ensures[C18] r1 == nil ==> ghostat("net", c) == old(ghostat("net", c)) + 1 && ghost("written") == old(ghost("written")) + 1 && inflightInv(c)
 //@   ensures[C18] ghost("written") == old(ghost("written")) ==> ghostat("net", c) == old(ghostat("net", c))
+//@   ensures[C18] ghostat("net", c) == old(ghostat("net", c)) || ghostat("net", c) == old(ghostat("net", c)) + 1
 
 // ---- failure of a connection completes every outstanding call exactly once (C03) ----
 // Ghost ledger delivered[call] counts the results handed to a call (sends on its result channel).
@@ -474,6 +482,10 @@ package region
 //@   requires ghostat("owed", rpc) == 0
 //@   modifies all
 //@   ensures[C03] ghostat("owed", rpc) == ite(r0 != nil, 1, 0)
+// the sender only ever counts a request up, and only one whose bytes went out (C18): a failed send is not "answered" -
+// counting it down would leave the counter below the number of requests outstanding and the read deadline unarmed
+//@   ensures[C18] ghostat("net", c) == old(ghostat("net", c)) || ghostat("net", c) == old(ghostat("net", c)) + 1
+//@   ensures[C18] ghost("written") == old(ghost("written")) ==> ghostat("net", c) == old(ghostat("net", c))
 
 // queueing (C03): a request handed to a connection whose failure transition has completed (done closed) is refused at once
 // with the connection-level error and is never put on the wire; a request whose own context has ended is dropped; a
@@ -509,6 +521,11 @@ package region
 //@   at call trySend#1 assume-shared clientInv(c) && multiWF(m) && liveDistinct(m) && forall(k, haskey(c.sent, k) ==> c.sent[k] != m)
 //@   at call trySend#1 assert[C03] ghostat("owed", m) == 0
 //@   at call newMulti#2 assert[C03] ghostat("owed", m) == 0
+// whatever arrives on the queue goes into the batch being assembled, whole (C03, C12): the three receive sites each
+// hand exactly the slice received to multi.add
+//@   at call add#1 assert[C03,C12] sameslice(arg0, rpcs)
+//@   at call add#2 assert[C03,C12] sameslice(arg0, rpcs)
+//@   at call add#3 assert[C03,C12] sameslice(arg0, rpcs)
 //@   loop 1 invariant[C03] m != nil && ghostat("owed", m) == 0
 //@   loop 2 invariant[C03] m != nil && ghostat("owed", m) == 0
 //@   loop 3 invariant[C03] m != nil && ghostat("owed", m) == 0
@@ -517,8 +534,8 @@ package region
 // is appended after them (the library may encode into the spare capacity handed to it, never over the live prefix)
 //@ func snappy.snappyCodec.Encode
 //@   modifies contents(dst)
-//@   ensures[C15] len(r0) == len(dst) + r1
-//@   ensures[C15] forall(k, 0 <= k && k < len(dst), r0[k] == old(dst[k]))
+//@   ensures[C15,C05] len(r0) == len(dst) + r1
+//@   ensures[C15,C05] forall(k, 0 <= k && k < len(dst), r0[k] == old(dst[k]))
 //@ func snappy.snappyCodec.Decode
 //@   modifies contents(dst)
 //@   ensures[C15] r2 == nil ==> len(r0) == len(dst) + r1
@@ -576,6 +593,26 @@ package region
 //@   ensures[C20] old(ghostat("oncedone", ref(c.dialOnce))) == 0 ==> ghost("dials") == old(ghost("dials")) + 1
 
 // ---- availability of a region: the establisher token (C09) ----
+// availability mark and connection of a region descriptor are read and written only under its lock (C09: "nor races on
+// shared state"); the accessors return exactly the field
+//@ guarded[C09] region.info: available, client by m
+//@ func region.(*info).IsUnavailable
+//@   modifies nothing
+//@   panics never[C09]
+//@   ensures[C09] r0 == (i.available != nil)
+//@ func region.(*info).AvailabilityChan
+//@   modifies nothing
+//@   panics never[C09]
+//@   ensures[C09] r0 == i.available
+//@ func region.(*info).Client
+//@   modifies nothing
+//@   panics never[C09]
+//@   ensures[C09,C01] r0 == i.client
+//@ func region.(*info).SetClient
+//@   modifies F.region.info.client
+//@   panics never[C09]
+//@   ensures[C09,C01] i.client == c
+
 //@ func region.(*info).MarkUnavailable
 //@   modifies F.region.info.available
 //@   panics never[C09]
